@@ -2,6 +2,7 @@ package main
 
 import (
 	"fmt"
+	"sync"
 	"time"
 
 	"golang.org/x/crypto/ssh"
@@ -285,4 +286,95 @@ func purgeRefused(r *ev.Run) {
 			}
 		}
 	}
+}
+
+// slowListing: the underlying agent takes four seconds to answer an identity listing, and a certificate it holds lapses
+// two to three seconds into that wait. What the shim returns afterwards is produced after the certificate lapsed: it does
+// not contain it (the interval rule of the histories, narrowed: the shim's clock read cannot precede the arrival of
+// the listing it filters), and signing with it fails.
+func slowListing(r *ev.Run) {
+	var wg sync.WaitGroup
+	for ci, first := range []string{"list", "signers", "sign"} {
+		c := r.Case("slow-listing", ci)
+		if c == nil {
+			continue
+		}
+		wg.Add(1)
+		go func(first string, c *ev.Case) {
+			defer wg.Done()
+			rec := map[string]any{"operation": first}
+			r.Eval(1)
+			r.Guard(c, "slow listing", rec, func() {
+				ag := wire.New()
+				defer ag.Close()
+				sock, err := ag.Listen()
+				if err != nil {
+					r.Inconclusive(err.Error())
+					return
+				}
+				pool := gen.Pool()
+				k1, k2 := pool[0], pool[9]
+				ag.Keyring.Add(agent.AddedKey{PrivateKey: k1.Priv, Comment: "k1"})
+				s, err := shimagent.New(shimagent.Option{Address: sock})
+				if err != nil {
+					r.Violation(c, "shim-construction-fails-without-fault", err.Error(), rec)
+					return
+				}
+				defer s.Close()
+				start := time.Now()
+				lapse := start.Add(3 * time.Second) // truncated to whole seconds below: lapses 2..3 s from now
+				short := gen.MakeCert(gen.CertSpec{Key: k2, KeyID: "short-lived@example", ValidAfter: uint64(start.Unix()) - 3600, ValidBefore: uint64(lapse.Unix()), Principals: []string{"u"}})
+				ag.Keyring.Add(agent.AddedKey{PrivateKey: k2.Priv, Certificate: short, Comment: "short-lived"})
+				var mu sync.Mutex
+				var firstReply time.Time
+				ag.SetPlan(func(_ int, req []byte) wire.Action {
+					if len(req) > 0 && req[0] == 11 {
+						mu.Lock()
+						first := firstReply.IsZero()
+						if first {
+							firstReply = time.Now().Add(4500 * time.Millisecond)
+						}
+						mu.Unlock()
+						if first {
+							return wire.Action{Kind: wire.Honest, Delay: 4500 * time.Millisecond}
+						}
+					}
+					return wire.Action{Kind: wire.Honest}
+				})
+				has := false
+				switch first {
+				case "list":
+					l, err := s.List()
+					if err != nil {
+						return
+					}
+					for _, x := range l {
+						has = has || string(x.Blob) == string(short.Marshal())
+					}
+				case "signers":
+					sg, err := s.Signers()
+					if err != nil {
+						return
+					}
+					for _, x := range sg {
+						has = has || string(x.PublicKey().Marshal()) == string(short.Marshal())
+					}
+				case "sign":
+					_, err := s.Sign(short, []byte("data"))
+					has = err == nil
+				}
+				if time.Since(start) < 4*time.Second {
+					r.Count("slow listing: the operation did not wait for the underlying agent (not judged)", 1)
+					return
+				}
+				if has {
+					r.Violation(c, "out-of-window-cert-listed:lapsed-while-waiting-for-the-underlying-agent:"+first, fmt.Sprintf("the certificate lapsed at %s; the underlying agent's listing arrived at about %s; %s returned at %s and still offers it", time.Unix(lapse.Unix(), 0).Format("15:04:05"), start.Add(4500*time.Millisecond).Format("15:04:05.0"), first, time.Now().Format("15:04:05.0")), rec)
+					return
+				}
+				r.Count("operations that outlasted a certificate's validity (slow underlying agent) and did not offer it", 1)
+				r.Nontrivial("slow-listing:" + first)
+			})
+		}(first, c)
+	}
+	wg.Wait()
 }
